@@ -11,6 +11,7 @@ namespace Dsd.PP
 /-- grammar terms without choice points -/
 inductive ChoiceFree : G → Prop
   | lit (s) : ChoiceFree (.lit s)
+  | kw (s i) : ChoiceFree (.kw s i)
   | word (i b) : ChoiceFree (.word i b)
   | white : ChoiceFree .white
   | lineEnd : ChoiceFree .lineEnd
@@ -38,6 +39,7 @@ theorem mono_aux (env : Env) : ∀ fuel,
       rw [show f + 1 + k = (f + k) + 1 by omega]
       cases hg with
       | lit s => simpa only [run] using h
+      | kw s i => simpa only [run] using h
       | word i b => simpa only [run] using h
       | white => simpa only [run] using h
       | lineEnd => simpa only [run] using h
